@@ -270,6 +270,17 @@ def fixed_twins():
         inputs = [M.enc_inputs({"uid": "u%d" % j, "score": a}) for j in range(6) for a, _ in rows]
         alts = [M.enc_inputs({"uid": "u%d" % j, "score": b}) for j in range(6) for _, b in rows]
         yield {"prog": prog, "classes": {"uid": "any", "score": "num"}, "inputs": inputs, "alts": alts, "extra": {}, "perm": 0, "newname": "renamed"}
+    # a guard in front of the tests it protects: with kind != "num" the value is never looked at (and / or stop at the first
+    # verdict), so a word where a number is expected changes nothing
+    S, L = M.lit_str, M.lit_int
+    num = M.cmp_(I("kind"), "==", S("num"))
+    gt, lt = M.cmp_(I("value"), ">", L("5")), M.cmp_(I("value"), "<", L("100"))
+    for pred in (M.and_(M.and_(num, gt), lt), M.and_(num, M.and_(gt, lt)), M.or_(M.or_(M.not_(num), gt), lt)):
+        prog = M.program("exp", M.if_([(pred, G("t"))], G("e")), salt="s", splitters=["uid"])
+        rows = [(("text", 50), ("text", "silver")), (("", 6), ("", None)), (("text", 500), ("other", (1, 2))), (("num", 50), ("num", 60))]
+        inputs = [M.enc_inputs({"uid": "u%d" % j, "kind": a[0], "value": a[1]}) for j in range(6) for a, _ in rows]
+        alts = [M.enc_inputs({"uid": "u%d" % j, "kind": b[0], "value": b[1]}) for j in range(6) for _, b in rows]
+        yield {"prog": prog, "classes": {"uid": "any", "kind": "str", "value": "num"}, "inputs": inputs, "alts": alts, "extra": {}, "perm": 0, "newname": "renamed"}
     # splitter names that differ only in letter case, in every declaration order
     for k, names in enumerate((["id", "Id", "region"], ["uid", "UID"], ["a", "A", "b", "B"], ["Zeta", "zeta", "ZETA"])):
         prog = M.program("exp", M.ret([(M.lit_str("g%d" % j), "1") for j in range(16)]), salt=None if k % 2 else "s", splitters=names)
